@@ -281,6 +281,7 @@ def genattr(pm: ProgramModel, ctx: Ctx, mb: ModelBuilder) -> None:
     frr = pm.func("get_random_value_from_ranges", "fm_generate_random_attribute")
     where = loc(gen.unit.path, gen.node)
     calls: list[tuple[str, Any]] = []
+    PICK = ["mid"]          # which point of [a, b] the stand-in for random.uniform returns
 
     def mk() -> Interp:
         it = Interp(pm, max_depth=40)
@@ -301,7 +302,12 @@ def genattr(pm: ProgramModel, ctx: Ctx, mb: ModelBuilder) -> None:
 
         def uniform(a: Any, b: Any) -> Any:
             calls.append(("uniform", (a, b)))
-            return 1.23456789
+            pick = PICK[0]
+            if pick == "lo":
+                return float(a)
+            if pick == "hi":
+                return float(b)
+            return 1.23456789 if a <= 1.23456789 <= b else a + (b - a) * 0.61803398875
         it.native["random.choice"] = choice
         it.native["random.randint"] = randint
         it.native["random.uniform"] = uniform
@@ -321,7 +327,7 @@ def genattr(pm: ProgramModel, ctx: Ctx, mb: ModelBuilder) -> None:
         # everything except the attribute lists is frozen
         snap_rel = snapshot(AObj("x", rels=[r for f in feats for r in f._f["relations"]]), skip=("attributes",))
         it = mk()
-        it.native[frd.qual] = lambda d: ("VALUE", d)
+        it.native[frd.qual] = it.signature_stub(frd, lambda d, *rest: ("VALUE", d))
         try:
             res = it.call(gen, [fm, "rnd", dom, only_leaf])
             err: Optional[str] = None
@@ -404,6 +410,24 @@ def genattr(pm: ProgramModel, ctx: Ctx, mb: ModelBuilder) -> None:
         ctx.check(not bad2, rule, f"domain:{key}", loc(frd.unit.path, frd.node),
                   f"value for a {key} domain is drawn from it (argument order checked)",
                   bad="; ".join(bad2[:3]))
+    # (b') a float range: rounding is monotone, so the value stays inside [a, b] for every draw iff it does for
+    # the draws a and b themselves; bounds with different numbers of decimals, and an int bound beside a float
+    for lo_, hi_ in ((0.5, 2.25), (1.5, 1.58), (0.44, 0.5), (1, 2.75), (0.125, 3), (2.0, 2.5)):
+        bad3 = []
+        for pick in ("lo", "hi", "mid"):
+            PICK[0] = pick
+            it = mk()
+            try:
+                v = it.call(frr, [[AObj("Range", min_value=lo_, max_value=hi_)]])
+            except AbsRaise as exc:
+                bad3.append(f"raises {exc.what}")
+                continue
+            if isinstance(v, bool) or not isinstance(v, (int, float)) or not (lo_ <= v <= hi_):
+                bad3.append(f"a draw at the {pick} end of the range gives {v!r}, outside [{lo_}, {hi_}]")
+        PICK[0] = "mid"
+        ctx.check(not bad3, rule, f"float-range-stays-inside:[{lo_},{hi_}]", loc(frr.unit.path, frr.node),
+                  f"every draw from the float range [{lo_}, {hi_}] stays inside it after rounding",
+                  bad="; ".join(bad3[:2]))
     # (c) library error for a missing domain / name ---------------------------------------------------
     for missing in ("domain", "name"):
         it = mk()
@@ -428,7 +452,7 @@ def genattr(pm: ProgramModel, ctx: Ctx, mb: ModelBuilder) -> None:
                       f"(expected a FlamaException)")
     # (d) wrapper: execute passes name/domain/leaf flag and the model through ------------------------
     it = mk()
-    it.native[gen.qual] = lambda *a: ("GEN", a)
+    it.native[gen.qual] = it.signature_stub(gen, lambda *a: ("GEN", a))
     op = it.eval_call_class(ci)
     d = dom_of([], ["a"])
     fm = rich_model(mb)
